@@ -18,7 +18,7 @@ subprocess.run(["git", "-C", "/repo", "worktree", "add", "-q", "--detach", os.pa
 R = os.path.join(SCR, "repo")
 try:
     for d in sorted(os.listdir(os.path.join(V, "seeded"))):
-        if only and d not in only and d[:3] not in only and not any(d.endswith(o) for o in only if o.startswith("*")):
+        if only and d not in only and d[:3] not in only and not any(d.endswith(o[1:]) for o in only if o.startswith("*")):
             continue
         sd = os.path.join(V, "seeded", d)
         pid = d[:3]
